@@ -216,9 +216,11 @@ func c16HistFill(r *rand.Rand, a *c16HistAttempt, eff int) {
 	}
 }
 
-// c16AllWorkersFail enables histories in which EVERY worker of an attempt fails (a single worker
-// hitting the transient error): see DESIGN.md, C16 "histories". Off by default.
-func c16AllWorkersFail() bool { return os.Getenv("VERIF_C16_HIST_ALL_WORKERS_FAIL") != "" }
+// c16AllWorkersFail: histories in which EVERY worker of an attempt fails (a single worker hitting
+// the transient error) are generated too. They were held back behind a flag while wrgl returned from
+// such an ingest with the sorter's producer still running (repaired in wrgl, 162eca1); the variable
+// VERIF_C16_HIST_NO_ALL_WORKERS_FAIL switches them off again for experiments.
+func c16AllWorkersFail() bool { return os.Getenv("VERIF_C16_HIST_NO_ALL_WORKERS_FAIL") == "" }
 
 func runC16History(ctx *Ctx) {
 	r := ctx.R
